@@ -69,8 +69,8 @@ def _nt(x, eps=1e-12):
 def law_cases(draw):
     mr = draw(hx.mesh_recipes())
     dim = gm.dim_of(mr["elemType"])
-    user = draw(st.integers(0, 5)) == 0
-    law = draw(hx.law_records(dim, names=hx.USER if user else hx.LAWS))
+    user = draw(st.integers(0, 9)) == 0
+    law = draw(hx.law_records(dim, names=hx.USER if user else hx.LAWS, tilted_ok=True))
     return dict(mesh=mr, law=law, U=draw(hx.stretches(dim)), R=draw(hx.rotations(dim)),
                 Q=draw(hx.rotations(dim)), dF=draw(st.integers(0, 999)),
                 mt=draw(st.sampled_from(["rigi", "mass"])))
@@ -92,9 +92,13 @@ def check_law(case, rec):
     name = lawp["name"]
     kind = ("AutoDiff:" + name) if name in hx.USER else name
     sig = dict(law=kind, dim=dim)
+    frame = hx.frame_kind(lawp, dim)
+    sigf = dict(sig, frame=frame)  # class of the reference-state oracles (see findings/C18.json)
     rec.label("law:" + kind, "elem:" + mr["elemType"], f"dim:{dim}")
     if lawp.get("field") is not None:
         rec.label("fibre:field")
+    if name == "HolzapfelOgden":
+        rec.label("fibre:" + frame)
     mod = hx.moduli(lawp)
 
     U = hx.stretch_tensor(case["U"], dim)
@@ -139,11 +143,11 @@ def check_law(case, rec):
 
     # reference configuration (and, with objectivity, every pure rotation of it)
     Wr, Sr, _ = _eval(mat, g, 0 * u, mt)
-    rec.close(Wr, mod, 1e-12, "reference_W", f"{kind} W(I) != 0", **sig)
-    rec.close(Sr, mod, 1e-12, "reference_S", f"{kind} S(I) != 0", **sig)
+    rec.close(Wr, mod, 1e-12, "reference_W", f"{kind} dim={dim} frame={frame}: W(I) != 0", **sigf)
+    rec.close(Sr, mod, 1e-12, "reference_S", f"{kind} dim={dim} frame={frame}: S(I) != 0", **sigf)
     Wr, Sr, _ = _eval(mat, g, hx.homogeneous_u(mesh, Q, dim), mt)
-    rec.close(Wr, mod, ID_TOL, "rotation_W", f"{kind} W(Q) != 0", **sig)
-    rec.close(Sr, mod, ID_TOL, "rotation_S", f"{kind} S(Q) != 0", **sig)
+    rec.close(Wr, mod, ID_TOL, "rotation_W", f"{kind} dim={dim} frame={frame}: W(Q) != 0", **sigf)
+    rec.close(Sr, mod, ID_TOL, "rotation_S", f"{kind} dim={dim} frame={frame}: S(Q) != 0", **sigf)
 
     rec.nontrivial(np.abs(F - np.eye(3)).max() > 0.05 and np.abs(R - np.eye(3)).max() > 1e-6
                    and np.abs(Q - np.eye(3)).max() > 1e-6 and nE > 1e-3)
@@ -157,7 +161,7 @@ def check_law(case, rec):
 def autodiff_cases(draw):
     mr = draw(hx.mesh_recipes())
     dim = gm.dim_of(mr["elemType"])
-    law = draw(hx.law_records(dim, names=hx.LAWS))
+    law = draw(hx.law_records(dim, names=hx.LAWS, tilted_ok=True))
     homog = draw(st.booleans())
     c = dict(mesh=mr, law=law, homog=homog, mt=draw(st.sampled_from(["rigi", "mass"])))
     if homog:
@@ -189,8 +193,11 @@ def check_autodiff(case, rec):
     mt = MatrixType(case["mt"])
     nPg = g.Get_gauss(mt).nPg
     name = lawp["name"]
-    sig = dict(law=name, dim=dim)
+    frame = hx.frame_kind(lawp, dim)
+    sig = dict(law=name, dim=dim, frame=frame)
     rec.label("law:" + name, "elem:" + mr["elemType"], f"dim:{dim}", "homog" if case["homog"] else "smooth")
+    if name == "HolzapfelOgden":
+        rec.label("fibre:" + frame)
     hand = hx.make_law(lawp, dim, g.Ne, nPg)
     auto = hx.autodiff_law(lawp, dim, g.Ne, nPg)
     mod = hx.moduli(lawp)
@@ -206,9 +213,9 @@ def check_autodiff(case, rec):
     rec.require(Wa.shape == Wh.shape and Sa.shape == Sh.shape and Ca.shape == Ch.shape, "shapes",
                 f"{Wa.shape}{Sa.shape}{Ca.shape} vs {Wh.shape}{Sh.shape}{Ch.shape}", **sig)
     nS, nC = float(np.abs(Sh).max()), float(np.abs(Ch).max())
-    rec.close(Wa - Wh, nS + mod, 1e-10, "autodiff_W", f"{name} dim={dim}", **sig)
-    rec.close(Sa - Sh, nC + nS + mod, 1e-10, "autodiff_S", f"{name} dim={dim}", **sig)
-    rec.close(Ca - Ch, nC + nS + mod, 1e-9, "autodiff_C", f"{name} dim={dim}", **sig)
+    rec.close(Wa - Wh, nS + mod, 1e-10, "autodiff_W", f"{name} dim={dim} frame={frame}", **sig)
+    rec.close(Sa - Sh, nC + nS + mod, 1e-10, "autodiff_S", f"{name} dim={dim} frame={frame}", **sig)
+    rec.close(Ca - Ch, nC + nS + mod, 1e-9, "autodiff_C", f"{name} dim={dim} frame={frame}", **sig)
     rec.nontrivial(np.abs(_np(stt.Compute_F()) - np.eye(3)).max() > 0.05)
 
 
